@@ -314,7 +314,7 @@ def verify(case, ctx):
         _verify_all(l, ctx, key, pub, id2, msg, case["cuts"], sig, exp, "after ID bit flip", "bind/id")
     elif cls == "wrongid":
         # ID shortened / extended by one byte, same buffer contents
-        id2 = ident[:-1] if (bit & 1 and len(ident) > 1) else ident + b"\0"
+        id2 = ident[:-1] if ((bit & 1 and len(ident) > 1) or len(ident) >= 8191) else ident + b"\0"      # 8191 bytes is the longest ID the interface admits
         exp = M.verify_rs(pub, M.b2i(M.digest_for_sign(pub, id2, msg)), r, s)
         _verify_all(l, ctx, key, pub, id2, msg, case["cuts"], sig, exp, "with ID length changed by one", "bind/idlen")
     elif cls == "flip-pub":
